@@ -141,6 +141,12 @@ func NewSortValue(val value.Primary, flags *option.Flags) *SortValue {
 		} else {
 			sortValue.Integer = 0
 		}
+		// The text is kept for the comparison with values of other types, as for numbers: a word such as 'true'
+		// among other words has its place in their order.
+		// (Boolean and ternary values themselves have no text and stay incomparable.)
+		if s, ok := val.(*value.String); ok {
+			sortValue.String = strings.ToUpper(option.TrimSpace(s.Raw()))
+		}
 	} else if s, ok := val.(*value.String); ok {
 		sortValue.Type = StringType
 		sortValue.String = strings.ToUpper(option.TrimSpace(s.Raw()))
@@ -182,6 +188,10 @@ func (v *SortValue) Less(compareValue *SortValue) ternary.Value {
 			return ternary.ConvertFromBool(v.Float < compareValue.Float)
 		case StringType:
 			return ternary.ConvertFromBool(v.String < compareValue.String)
+		case BooleanType:
+			if 0 < len(compareValue.String) {
+				return ternary.ConvertFromBool(v.String < compareValue.String)
+			}
 		}
 	case FloatType:
 		switch compareValue.Type {
@@ -206,6 +216,10 @@ func (v *SortValue) Less(compareValue *SortValue) ternary.Value {
 			return ternary.ConvertFromBool(v.Float < compareValue.Float)
 		case StringType:
 			return ternary.ConvertFromBool(v.String < compareValue.String)
+		case BooleanType:
+			if 0 < len(compareValue.String) {
+				return ternary.ConvertFromBool(v.String < compareValue.String)
+			}
 		}
 	case DatetimeType:
 		switch compareValue.Type {
@@ -222,6 +236,17 @@ func (v *SortValue) Less(compareValue *SortValue) ternary.Value {
 				return ternary.UNKNOWN
 			}
 			return ternary.ConvertFromBool(v.String < compareValue.String)
+		case BooleanType:
+			if 0 < len(compareValue.String) && v.String != compareValue.String {
+				return ternary.ConvertFromBool(v.String < compareValue.String)
+			}
+		}
+	case BooleanType:
+		switch compareValue.Type {
+		case IntegerType, FloatType, StringType, BooleanType:
+			if 0 < len(v.String) && 0 < len(compareValue.String) && v.String != compareValue.String {
+				return ternary.ConvertFromBool(v.String < compareValue.String)
+			}
 		}
 	}
 
